@@ -101,7 +101,7 @@ def _run(self):
     if faildir and os.path.exists(os.path.join(faildir, f'fail_{self.label}')):
         raise ValueError(f'boom (this run) {self.label}')
     if self.beh == 'die':
-        os._exit(3)
+        os._exit(3 if self.label % 2 else 0)      # a worker may also die 'successfully' (status 0) without reporting a result
     found = flat(self.deps)
     value = ('N', self.label, tuple(found[i].result for i in self.reads))
     if os.environ.get('LV_EPOCH'):
@@ -149,6 +149,16 @@ class Shade(enum.Enum):
     DARK = 2
 
 
+class Level(enum.IntEnum):          # members compare equal to plain ints
+    ONE = 1
+    TWO = 2
+
+
+class Opt(str, enum.Enum):          # members compare equal to plain strings
+    ADAM = 'adam'
+    SGD = 'sgd'
+
+
 def _post_init(self):
     object.__setattr__(self, 'derived', ('derived', self.label))
 
@@ -163,14 +173,14 @@ def _filter_first(self, context):
 _FIELDS = {'label': int, 'deps': Any, 'beh': str, 'reads': tuple, 'talk': tuple}
 
 
-def make_type(name, *, cache, max_parallel, post_init=False, filter_context=None, module=__name__, run=None):
+def make_type(name, *, cache, max_parallel, post_init=False, filter_context=None, module=__name__, run=None, bases=()):
     ns = {'__annotations__': dict(_FIELDS), 'deps': (), 'beh': 'ok', 'reads': (), 'talk': (),
           'run': run or _run, '__module__': module, '__qualname__': name}
     if post_init:
         ns['post_init'] = _post_init
     if filter_context is not None:
         ns['filter_context'] = filter_context
-    cls = type(name, (), ns)
+    cls = type(name, tuple(bases), ns)
     kw = {} if cache == 'default' else {'cache': cache}
     return labtech.task(max_parallel=max_parallel, **kw)(cls)
 
@@ -190,7 +200,23 @@ Tab = make_type('Tab', cache='default', max_parallel=None)
 TJ = make_type('TJ', cache=JsonCache(), max_parallel=None)
 TPost = make_type('TPost', cache='default', max_parallel=None, post_init=True)
 TCtx = make_type('TCtx', cache='default', max_parallel=None, filter_context=_filter_first)
-SCHED_TYPES += [Ta, Tab, TJ]
+
+
+class _CtxMixin:
+    """filter_context inherited from a base class instead of being defined in the task class body"""
+    def filter_context(self, context):
+        return _filter_first(self, context)
+
+
+TCtxI = make_type('TCtxI', cache='default', max_parallel=None, bases=(_CtxMixin,))
+def _rw_post_init(self):
+    # a post_init that canonicalises one of the task's own parameters (the cache key was computed from what was given)
+    object.__setattr__(self, 'beh', self.beh.strip().lower())
+
+
+TRw = labtech.task(type('TRw', (), {'__annotations__': dict(_FIELDS), 'deps': (), 'beh': 'ok', 'reads': (), 'talk': (),
+                                    'run': _run, 'post_init': _rw_post_init, '__module__': __name__, '__qualname__': 'TRw'}))
+SCHED_TYPES += [Ta, Tab, TJ, TRw]
 
 
 def _run_big(self):
@@ -261,6 +287,42 @@ def _vret(self):
 
 
 VRet = labtech.task(type('VRet', (), {'__annotations__': {'x': Any, 'i': int}, 'run': _vret, '__module__': __name__, '__qualname__': 'VRet'}))
+def _nested_type(outer):
+    # a class defined inside another class: __name__ 'V2', __qualname__ '<outer>.V2' (not reconstructible from metadata,
+    # but its cache key must still differ from every other V2)
+    cls = type('V2', (), {'__annotations__': {'x': Any}, 'run': _vrun, '__module__': __name__, '__qualname__': f'{outer}.V2'})
+    return labtech.task(cls)
+
+
+class NestA:
+    class Kind(enum.Enum):
+        FAST = 1
+
+
+class NestB:
+    class Kind(enum.Enum):
+        FAST = 1
+
+
+def _nested_ret_type(outer, tag):
+    # same __name__ ('Leaf') under different enclosing classes, returning distinguishable values
+    def run(self):
+        return (tag, self.x)
+    cls = type('Leaf', (), {'__annotations__': {'x': Any}, 'run': run, '__module__': __name__, '__qualname__': f'{outer}.Leaf'})
+    return labtech.task(cache=None)(cls)      # (a nested class name contains '.', which LocalStorage keys may not)
+
+
+NestA_Leaf = _nested_ret_type('NestA', 'from-A')
+NestB_Leaf = _nested_ret_type('NestB', 'from-B')
+
+
+def _vdep_run(self):
+    return ('dep-says', self.x.result)
+
+
+VDep = labtech.task(type('VDep', (), {'__annotations__': {'x': Any}, 'run': _vdep_run, '__module__': __name__, '__qualname__': 'VDep'}))
+NestA_V2 = _nested_type('NestA')
+NestB_V2 = _nested_type('NestB')
 VALUE_TYPES = {'V1': V1, 'V2': V2, 'V': V, 'VV': VV, 'VJ': VJ, 'VN': VN, 'VPost': VPost}
 ENUMS = {'Color': Color, 'Shade': Shade}
 
